@@ -28,7 +28,13 @@ def _sig(rj):
     rb = ev.get("o", {}).get("rb", [])
     empty = any(rb[i] == rb[i + 1] for i in range(len(rb) - 1))      # some class interval is a single point
     refused = any('"rk":"bpp"' in ln for ln in (rj.prefix or [])[:-1])   # an earlier call of the history was refused
+    # narrow: the values that are out of their class are ALL in classes narrower than 100 x the 1e-12 resolution of
+    # the class map (computed by the driver from the raw doubles); rescaled_median: the class values are medians
+    # multiplied by mean/sum(medians) (median flag on, equal-probability discretisation)
+    narrow = bool(ev.get("o", {}).get("narrow", False))
+    rescaled = bool(st.get("median")) and st.get("scheme", 1) in (1, 3)
     return {"action": ev.get("e"), "invariant": rj.invariant or "step", "kind": st.get("kind", ""), "fam": st.get("fam", ""),
+            "narrow": narrow, "rescaled_median": rescaled,
             "median": st.get("median", ""), "outcome": ev.get("rk", ""), "emptyclass": empty,
             "compound": st.get("kind", "") in ("invariant", "mixture"), "after_refusal": refused}
 
